@@ -255,18 +255,22 @@ KeepWriting ==
   /\ UNCHANGED <<R, max, src, d0, dst, toSend, tablesToSend, commonTables, commonBlocks, objq, cur, pack, npacks,
                  sent, wire, senderDone, rejected>>
 
-Recv(kind) ==
-  /\ pc = "recv" /\ wire # <<>>
-  /\ Head(wire)[1] = kind
+Accept ==
   /\ Acceptable(R, dst, Head(wire))
   /\ dst' = Apply(R, dst, Head(wire))
   /\ wire' = Tail(wire)
   /\ UNCHANGED <<R, max, src, d0, toSend, tablesToSend, commonTables, commonBlocks, objq, cur, pack, npacks, sent,
                  senderDone, rejected, pc>>
 
-RecvBlock  == Recv("b")
-RecvTable  == Recv("t")
-RecvCommit == Recv("c")
+(* validated, stored under the hash of its content *)
+RecvBlock  == /\ pc = "recv" /\ wire # <<>> /\ Head(wire)[1] = "b"
+              /\ Accept
+(* enabled only if every block is there; block indices, table index and profile rebuilt *)
+RecvTable  == /\ pc = "recv" /\ wire # <<>> /\ Head(wire)[1] = "t"
+              /\ Accept
+(* enabled only if every parent is there *)
+RecvCommit == /\ pc = "recv" /\ wire # <<>> /\ Head(wire)[1] = "c"
+              /\ Accept
 
 (* the first unacceptable object ends the session; NOTHING of it is stored *)
 Reject ==
